@@ -23,6 +23,7 @@ pub fn run_property(ctx: &Ctx) -> Option<Report> {
             );
             r.assume("a set to the same value with a different status (plain vs TTL) may or may not notify; re-delivery of identical entries after a reset may or may not notify");
             listen::run(ctx, &mut r);
+            listen::run_drop_race(ctx, &mut r);
             r
         }
         "C17" => {
@@ -75,6 +76,10 @@ pub fn run_property(ctx: &Ctx) -> Option<Report> {
             sim::run(ctx, &mut r, mon, quick, thorough);
             if mon == Monitor::C12 {
                 sim::run_memory(ctx, &mut r);
+            }
+            if mon == Monitor::C16 {
+                // the same isolation on the real UDP transport (foreign SYN -> exactly BadCluster)
+                r.push(srv::udp_smoke(ctx));
             }
             if mon == Monitor::C01 {
                 // the statement's size assumption made tight: a key-value that exactly fits
@@ -164,7 +169,10 @@ pub fn run_property(ctx: &Ctx) -> Option<Report> {
 pub fn replay_property(ctx: &Ctx, sub: &str, case: &serde_json::Value) -> SubResult {
     match ctx.prop.as_str() {
         "C06" => kv::replay(ctx, sub, case, "C06"),
-        "C15" => listen::replay(ctx, sub, case),
+        "C15" => match sub {
+            "drop-during-dispatch" => listen::replay_drop_race(ctx, sub, case),
+            _ => listen::replay(ctx, sub, case),
+        },
         "C17" => match sub {
             "server-round-targets" => srv::replay_targets(ctx, sub, case),
             _ => select::replay(ctx, sub, case),
@@ -198,7 +206,10 @@ pub fn replay_property(ctx: &Ctx, sub: &str, case: &serde_json::Value) -> SubRes
             _ => sim::replay(ctx, sub, case, Monitor::C12),
         },
         "C13" => sim::replay(ctx, sub, case, Monitor::C13),
-        "C16" => sim::replay(ctx, sub, case, Monitor::C16),
+        "C16" => match sub {
+            "udp-loopback-smoke" => srv::udp_smoke(ctx),
+            _ => sim::replay(ctx, sub, case, Monitor::C16),
+        },
         _ => {
             let mut r = SubResult::default();
             r.inconclusive.push(format!("no replay handler for {}", ctx.prop));
